@@ -220,6 +220,7 @@ def run(ctx):
             line=0,
         )
     ctx.section(_ext, ctx)
+    ctx.section(_foreign, ctx)
     ctx.samples = [
         {"start": m, "modules_loaded": len(ns), "result": "ok"}
         for m, ns in list(sorted(ok_single.items()))[:: max(1, len(ok_single) // 5)][:6]
@@ -231,6 +232,77 @@ def run(ctx):
 
 
 GUARD_WORDS = ("find_spec", "PY_GTE", "PY3", "version_info", "python_major_minor")
+
+
+_MUTATORS = frozenset("append extend insert pop remove clear update add discard setdefault popitem sort reverse".split())
+
+
+def _foreign(ctx):
+    """
+    C18.foreign — "importing any two modules in either order leaves the same public names bound". A module that, while
+    it is being imported, MUTATES an object it imported from a module outside the package (`from typing import __all__
+    as names; names.remove("Text")`) changes that module for the whole interpreter: what another module's
+    `from typing import *` binds then depends on whether this module was imported before it. Reading, copying
+    (`frozenset(names)`, `list(names)`), and deleting the local NAME (`del names`) are fine.
+    """
+    index = ctx.index
+    n_names = 0
+    for name in index.nontest_modules():
+        m = index.modules[name]
+        foreign = {}
+        for st in ast.walk(m.tree):
+            if isinstance(st, ast.ImportFrom) and not st.level and st.module and not st.module.startswith("cdd"):
+                for a in st.names:
+                    if a.name != "*":
+                        foreign[a.asname or a.name] = "{}.{}".format(st.module, a.name)
+        if not foreign:
+            continue
+        n_names += len(foreign)
+
+        def module_level(stmts):
+            for st in stmts:
+                if isinstance(st, (ast.FunctionDef, ast.AsyncFunctionDef, ast.ClassDef)):
+                    continue
+                yield st
+                for fld in ("body", "orelse", "finalbody"):
+                    sub = getattr(st, fld, None)
+                    if isinstance(sub, list) and sub and isinstance(sub[0], ast.stmt):
+                        for x in module_level(sub):
+                            yield x
+                for h in getattr(st, "handlers", []) or []:
+                    for x in module_level(h.body):
+                        yield x
+
+        for st in module_level(m.tree.body):
+            own = [st.value] if isinstance(st, ast.Expr) else ([st] if isinstance(st, (ast.Assign, ast.AugAssign, ast.Delete)) else [])
+            for root in own:
+                for x in ast.walk(root):
+                    hit = None
+                    if isinstance(x, ast.Call) and isinstance(x.func, ast.Attribute) and x.func.attr in _MUTATORS and isinstance(x.func.value, ast.Name) and x.func.value.id in foreign:
+                        hit = x.func.value.id
+                    if isinstance(x, (ast.Assign, ast.AugAssign)):
+                        for t in x.targets if isinstance(x, ast.Assign) else [x.target]:
+                            if isinstance(t, (ast.Subscript, ast.Attribute)) and isinstance(t.value, ast.Name) and t.value.id in foreign:
+                                hit = t.value.id
+                            if isinstance(x, ast.AugAssign) and isinstance(t, ast.Name) and t.id in foreign and isinstance(x.op, ast.Add):
+                                hit = t.id
+                    if isinstance(x, ast.Delete):
+                        for t in x.targets:
+                            if isinstance(t, ast.Subscript) and isinstance(t.value, ast.Name) and t.value.id in foreign:
+                                hit = t.value.id
+                    if hit is not None:
+                        ctx.ob(
+                            "C18.foreign",
+                            m,
+                            st,
+                            False,
+                            "import of this module mutates `{}` (= {}), an object owned by a module outside the package: every module "
+                            "imported LATER sees the changed object (e.g. `from {} import *` binds other names), so the public names "
+                            "depend on import order".format(hit, foreign[hit], foreign[hit].rpartition(".")[0]),
+                            line=st.lineno,
+                        )
+    ctx.count("names_imported_from_outside_the_package", n_names)
+    ctx.floor("names imported from modules outside the package", n_names, 50)
 
 
 def _ext(ctx):
